@@ -32,8 +32,8 @@ const (
 	kTypeName
 )
 
-type kType struct{ pkg, name, exp int }
-type kObj struct{ kind, pkg, name, exp, owner, nparams, named, nresults, recvnamed int }
+type kType struct{ pkg, name, exp, iface int }
+type kObj struct{ kind, pkg, name, exp, owner, nparams, named, nresults, recvnamed, dispatch int }
 type kKey struct{ kind, obj, num, fld, lf, ll, lc, track int }
 
 const lineWidth = 50
@@ -115,23 +115,32 @@ func buildUniverse(np int, ts []kType, os_ []kObj, a, pert int) *universe {
 				u.objs[oi], u.flds[oi] = v, v
 			}
 		}
-		nt := types.NewNamed(tn, types.NewStruct(fields, nil), nil)
+		var nt *types.Named
+		if t.iface == 1 {
+			// an interface type: its methods are the method objects it owns (the generator gives it no fields)
+			nt = types.NewNamed(tn, nil, nil)
+			var methods []*types.Func
+			for oi, o := range os_ {
+				if o.kind == kMethod && o.owner == ti {
+					fn := types.NewFunc(at(o.pkg, 2+oi), u.pkgs[o.pkg], objName(o), u.signature(o, oi, at, types.NewVar(token.NoPos, u.pkgs[o.pkg], "", nt)))
+					methods = append(methods, fn)
+					u.objs[oi] = fn
+				}
+			}
+			it := types.NewInterfaceType(methods, nil)
+			it.Complete()
+			nt.SetUnderlying(it)
+		} else {
+			nt = types.NewNamed(tn, types.NewStruct(fields, nil), nil)
+		}
 		u.named = append(u.named, nt)
 		u.pkgs[t.pkg].Scope().Insert(tn)
 	}
 	for oi, o := range os_ {
 		switch o.kind {
 		case kFunc, kMethod:
-			var params, results []*types.Var
-			for i := 0; i < o.nparams; i++ {
-				name := ""
-				if o.named&(1<<i) != 0 {
-					name = fmt.Sprintf("p%d", i)
-				}
-				params = append(params, types.NewParam(at(o.pkg, 2+oi)+token.Pos(10+i), u.pkgs[o.pkg], name, ptrInt))
-			}
-			for i := 0; i < o.nresults; i++ {
-				results = append(results, types.NewParam(at(o.pkg, 2+oi)+token.Pos(20+i), u.pkgs[o.pkg], "", ptrInt))
+			if u.objs[oi] != nil {
+				continue // a method of an interface type, built with the type
 			}
 			var recv *types.Var
 			if o.kind == kMethod {
@@ -141,7 +150,7 @@ func buildUniverse(np int, ts []kType, os_ []kObj, a, pert int) *universe {
 				}
 				recv = types.NewParam(at(o.pkg, 2+oi)+token.Pos(2), u.pkgs[o.pkg], rn, types.NewPointer(u.named[o.owner]))
 			}
-			sig := types.NewSignatureType(recv, nil, nil, types.NewTuple(params...), types.NewTuple(results...), false)
+			sig := u.signature(o, oi, at, recv)
 			fn := types.NewFunc(at(o.pkg, 2+oi), u.pkgs[o.pkg], objName(o), sig)
 			if o.kind == kMethod {
 				u.named[o.owner].AddMethod(fn)
@@ -163,6 +172,22 @@ func buildUniverse(np int, ts []kType, os_ []kObj, a, pert int) *universe {
 		p.MarkComplete()
 	}
 	return u
+}
+
+func (u *universe) signature(o kObj, oi int, at func(pkg, line int) token.Pos, recv *types.Var) *types.Signature {
+	ptrInt := types.NewPointer(types.Typ[types.Int])
+	var params, results []*types.Var
+	for i := 0; i < o.nparams; i++ {
+		name := ""
+		if o.named&(1<<i) != 0 {
+			name = fmt.Sprintf("p%d", i)
+		}
+		params = append(params, types.NewParam(at(o.pkg, 2+oi)+token.Pos(10+i), u.pkgs[o.pkg], name, ptrInt))
+	}
+	for i := 0; i < o.nresults; i++ {
+		results = append(results, types.NewParam(at(o.pkg, 2+oi)+token.Pos(20+i), u.pkgs[o.pkg], "", ptrInt))
+	}
+	return types.NewSignatureType(recv, nil, nil, types.NewTuple(params...), types.NewTuple(results...), false)
 }
 
 func (u *universe) key(k kKey, np int) annotation.Key {
@@ -213,11 +238,11 @@ func keysCase(a []int) (out string) {
 	np := next()
 	ts := make([]kType, next())
 	for i := range ts {
-		ts[i] = kType{next(), next(), next()}
+		ts[i] = kType{next(), next(), next(), next()}
 	}
 	os_ := make([]kObj, next())
 	for i := range os_ {
-		os_[i] = kObj{next(), next(), next(), next(), next(), next(), next(), next(), next()}
+		os_[i] = kObj{next(), next(), next(), next(), next(), next(), next(), next(), next(), next()}
 	}
 	ks := make([]kKey, next())
 	for i := range ks {
@@ -229,7 +254,7 @@ func keysCase(a []int) (out string) {
 	for i, o := range home.objs {
 		p := ""
 		_, isTN := o.(*types.TypeName)
-		if (o.Exported() || isTN) && os_[i].kind != kLVar {
+		if (o.Exported() || isTN || os_[i].dispatch == 1) && os_[i].kind != kLVar {
 			if pp, err := objectpath.For(o); err == nil {
 				p = string(pp)
 			}
